@@ -121,6 +121,26 @@ CLAIMS = {
         note="trusts clang AST/CFG; iostream manipulators and strftime behave as documented; the field-kind table is "
              "frozen in the checker (a new field kind fails the check until the table is extended)",
         technique="static analysis: switch/enum exhaustiveness, who-reads-what table, CFG must-pass-through and guards"),
+    "C17": dict(
+        level="other", engine="engine A (cfg.py)",
+        text="Path counting over the CFG of one iteration of the word loop of TextBlock::formatLine: the set of "
+             "emission counts of the current token over all paths is {1} ({0} on the forced-break path), the token is "
+             "only streamed/compared/measured (no buffering or reordering), the loop has no early exit; stream-chain "
+             "shape rule 'every line break is followed by the indentation', guard of the first-line indentation, "
+             "tokenizer separators. Decides the no-loss/no-duplication/order and indentation clauses for all texts; "
+             "blank placement and the width clause are not decided by the quick tier.",
+        note="trusts clang AST/CFG and boost::tokenizer order",
+        technique="static analysis: path counting on the loop-body CFG, use analysis, stream-chain shape rules"),
+    "C18": dict(
+        level="other", engine="engine B (boolshape.py)",
+        text="Exhaustive truth table of the visibility predicate ArgDesc::doPrint over all combinations of its nine "
+             "atoms against the specification table, with mutual exclusion of the two passes; path counting on "
+             "ArgumentDesc::print/printArguments (each pass once, keys and description of every visible argument "
+             "streamed exactly once, nothing for invisible ones, no early exit); description registered on every add "
+             "path; branch rules of the single-argument help incl. canonical-key lookup. Layout is not decided.",
+        note="trusts clang AST/CFG; TypedArgBase property getters report the configured properties",
+        also=("engine A (cfg.py)",),
+        technique="static analysis: exhaustive truth table of the predicate + CFG path counting"),
     "C20": dict(
         level="other", engine="engine E (effects.py)",
         text="Static lockset/dominance and initialisation-order analysis of every Singleton<T>::instance/reset and "
